@@ -59,7 +59,8 @@ pub fn check_fmt(c: &FmtCase) -> Verdict {
         match c.kind {
             Kind::Disp => {
                 let scale = c.d.scale as i128;
-                let frac_pad = if n > 0 { n as u128 + 1 } else { 0 };
+                // the limit is on the number of padded zeros (the point is not a zero)
+                let frac_pad = n as u128;
                 let zero_pad = if scale <= 0 { (-scale) as u128 + frac_pad } else { 0 };
                 // a zero has no integer digits to pad: whether its (absent) integer zeros count towards
                 // the limit is not fixed by the statement, so in that band either form is accepted
